@@ -21,15 +21,28 @@ def sh(cmd, **kw):
     return subprocess.run(cmd, shell=True, capture_output=True, text=True, **kw)
 
 
+def add_worktree(wt, commit):
+    """git worktree operations of concurrent jobs contend for one lock: retry"""
+    import time
+    for attempt in range(8):
+        sh(f'rm -rf {wt}')
+        if sh(f'git -C /repo worktree add -q --detach {wt} {commit}').returncode == 0 and os.path.isdir(wt):
+            return
+        time.sleep(0.5 + attempt)
+        sh('git -C /repo worktree prune')
+    raise RuntimeError(f'cannot create worktree {wt}')
+
+
 def job(a):
     seed, tier, vseed, checks = a
     meta = json.load(open(f'{SEEDED}/{seed}/meta.json'))
     wt = f'/tmp/rc-{os.getpid()}-{seed}'
     on = 'HEAD'
-    sh(f'rm -rf {wt}; git -C /repo worktree prune; git -C /repo worktree add -q --detach {wt} HEAD')
+    add_worktree(wt, 'HEAD')
     if sh(f'git apply {SEEDED}/{seed}/patch.diff', cwd=wt).returncode != 0:
         on = meta.get('base_commit') or 'HEAD'
-        sh(f'git -C /repo worktree remove --force {wt}; git -C /repo worktree add -q --detach {wt} {on}')
+        sh(f'git -C /repo worktree remove --force {wt}')
+        add_worktree(wt, on)
         if sh(f'git apply {SEEDED}/{seed}/patch.diff', cwd=wt).returncode != 0:
             sh(f'git -C /repo worktree remove --force {wt}')
             return seed, on, {}, 'PATCH DOES NOT APPLY'
